@@ -14,6 +14,15 @@ EXPLANATION = ("LADDER rule in EXACT mode on CheckTransaction: every accepting e
 ASSUMPTIONS = ["clang-14 front end + /verif/shim", "GetSerializeSize(TX_NO_WITNESS(tx)) computes the stripped size (opaque atom)",
                "std::set<COutPoint>::insert(...).second is false exactly for duplicates (library semantics)"]
 
+CLAIM = dict(
+    technique="static analysis: LADDER (EXACT) reject-ladder conformance by truth tables over canonical guard atoms + predicate twins + constants",
+    text="Decides, for all inputs, the decision structure of CheckTransaction: every accepting path excludes each of the nine spec "
+         "reject conditions (per-element ones via complete loops), every rejection is a spec rung with its reason/result and fires only "
+         "under its spec condition, in spec order; MoneyRange/IsCoinBase/IsNull equal their definitions. A unit test samples inputs; "
+         "this quantifies over all paths.",
+    note="Not decided: GetSerializeSize arithmetic, std::set semantics (opaque atoms).",
+    ref="DESIGN.md §3 C03")
+
 R = "TxValidationResult::TX_CONSENSUS"
 SIZE = "tx.vin[0].scriptSig.size()"
 
@@ -24,10 +33,10 @@ RUNGS = [
     Rung("bad-txns-vout-negative", "NEG", {"NEG": "each(tx.vout).nValue < 0"}, loop=r"each\(tx\.vout\)", result=R),
     Rung("bad-txns-vout-toolarge", "LARGE", {"LARGE": ("each(tx.vout).nValue < 2100000000000001", False)}, loop=r"each\(tx\.vout\)", result=R),
     Rung("bad-txns-txouttotal-toolarge", "TOTAL_OUT_OF_RANGE",
-         {"TOTAL_OUT_OF_RANGE": (re.compile(r"MoneyRange\(var<CAmount=0>\)"), False),
+         {"TOTAL_OUT_OF_RANGE": (re.compile(r"MoneyRange\(\w+\)"), False),
           "NEG": "each(tx.vout).nValue < 0", "LARGE": ("each(tx.vout).nValue < 2100000000000001", False)}, loop=r"each\(tx\.vout\)", result=R),
     Rung("bad-txns-inputs-duplicate", "DUP",
-         {"DUP": (re.compile(r"var<std::set<COutPoint>=.*>\.insert\(each\(tx\.vin\)\.prevout\)\.second"), False)}, loop=r"each\(tx\.vin\)", result=R),
+         {"DUP": (re.compile(r"\w+\.insert\(each\(tx\.vin\)\.prevout\)\.second"), False)}, loop=r"each\(tx\.vin\)", result=R),
     Rung("bad-cb-length", "COINBASE && (SHORT || LONG)",
          {"COINBASE": "tx.IsCoinBase()", "SHORT": SIZE + " < 2", "LONG": (SIZE + " < 101", False)}, result=R),
     Rung("bad-txns-prevout-null", "NULLPREV", {"COINBASE": "tx.IsCoinBase()", "NULLPREV": "each(tx.vin).prevout.IsNull()"},
